@@ -128,6 +128,13 @@ BOUNDED = {
                   "other (also unhashable) types, empty / numeric-looking names, self-references, deep nesting, media types with "
                   "parameters, missing optional parts, long / unclosed path placeholders with converter suffixes (30 s each: no hang)",
         bound="11 documents"),
+    "signature_order": dict(
+        unit="generate() + CPython's compiler on every generated module", where="openapi_python_client/templates/endpoint_macros.py.jinja",
+        statement="an accepted operation with two path parameters and a required + an optional query parameter, each with or "
+                  "without a schema default, is generated into modules that compile",
+        bound="16 documents (every subset of the four parameters carrying a default)",
+        known={"C01-K1-path-default-before-plain-path-parameter":
+               lambda case, why: "does not compile" in why and case["path_defaults"] == [True, False]}),
     "equivalent_docs": dict(
         unit="generate() on pairs of documents that say the same thing in different notation", where="openapi_python_client/",
         statement="3.0 nullable vs 3.1 type list / null member, single-member allOf/oneOf/anyOf wrapper vs bare $ref, JSON vs "
